@@ -44,6 +44,14 @@ def check(ck):
     r11_5_6(ck)
     r11_7(ck)
     r11_8(ck)
+    from . import helpers as H
+    ck.rule('R11.9', 'deep_merge, with which the divided state and the '
+            "daughter's explicit initial state are combined, keeps its "
+            'recursion skeleton: it recurses into (also empty) nested '
+            'dictionaries of the target instead of re-binding them to the '
+            'dictionaries of the argument, so the two daughters never share '
+            'an object of the initial-state template')
+    H.deep_merge_shape(ck, 'R11.9')
 
 
 def r11_1(ck):
